@@ -751,8 +751,10 @@ def cylindrical_surface(
 azimuthal_histogram = deprecation_alias(azimuthal, "azimuthal_histogram")
 radial_histogram = deprecation_alias(radial, "radial_histogram")
 polar_histogram = deprecation_alias(polar, "polar_histogram")
-spherical_histogram = deprecation_alias(polar, "spherical_histogram")
-spherical_surface_histogram = deprecation_alias(polar, "spherical_surface_histogram")
+spherical_histogram = deprecation_alias(spherical, "spherical_histogram")
+spherical_surface_histogram = deprecation_alias(
+    spherical_surface, "spherical_surface_histogram"
+)
 cylindrical_histogram = deprecation_alias(cylindrical, "cylindrical_histogram")
 cylindrical_surface_histogram = deprecation_alias(
     cylindrical_surface, "cylindrical_surface_histogram"
